@@ -32,7 +32,7 @@ ATTR = {
     ('range', 'start'): ('rs', 'int'), ('range', 'end'): ('re', 'int'),
     ('strand', 'is_plus'): ('is_plus', 'bool'),
     ('pt', 'offset'): ('pt_offset', 'int'), ('pt', 'span'): ('pt_span', 'int'),
-    ('cds', 'start'): ('c_start', 'int'), ('cds', 'end'): ('c_end', 'int'),
+    ('cds', 'start'): ('c_start', 'int'), ('cds', 'end'): ('c_end', 'int'), ('cds', 'cds_prefix'): ('c_prefix', 'dna'), ('cds', 'cds_suffix'): ('c_suffix', 'dna'),
     ('tcfg', 'ref'): ('t_ref', 'range'), ('tcfg', 'region_2'): ('t_r2', 'range'),
     ('tcfg', 'region_1_length'): ('t_e1', 'int'), ('tcfg', 'region_3_length'): ('t_e3', 'int'),
     ('variant', 'pos'): ('v_pos', 'int'), ('variant', 'ref'): ('v_ref_s', 'str'), ('variant', 'alt'): ('v_alt_s', 'str'),
